@@ -13,7 +13,7 @@ args = [a for a in args if a != '--scratch']
 ID, X, checks = args[0], args[1], args[2:]
 root = os.environ.get('SEED_ROOT', '/tmp/seed2')          # round 3: /tmp/seed2 (kept as -A/-B); round 4: /tmp/seed3 (kept as -C/-D)
 src = Path(f'{root}/{ID}.out')
-name = f"{ID}-{ {'A': 'C', 'B': 'D'}[X] if root.endswith('seed3') else ({'A': 'E', 'B': 'F', 'H': 'H'}[X] if root.endswith('seed4') else ({'A': 'G', 'B': 'J'}[X] if root.endswith('seed5') else ({'A': 'K', 'B': 'L'}[X] if root.endswith('seed6') else X)))}"
+name = f"{ID}-{ {'A': 'C', 'B': 'D'}[X] if root.endswith('seed3') else ({'A': 'E', 'B': 'F', 'H': 'H'}[X] if root.endswith('seed4') else ({'A': 'G', 'B': 'J'}[X] if root.endswith('seed5') else ({'A': 'K', 'B': 'L'}[X] if root.endswith('seed6') else ({'A': 'M', 'B': 'N'}[X] if root.endswith('seed8') else X))))}"
 dst = Path('/verif/seeded') / name
 dst.mkdir(parents=True, exist_ok=True)
 shutil.copy(src / f'patch{X}.diff', dst / 'patch.diff')
